@@ -120,6 +120,15 @@ def handle : Handler
       let scale := 1 + Spec.maxAbs want.length (vget want)
       some (verdict [("extremal-values", Spec.maxAbs want.length (fun c => vget want c - vget got c), tol * scale)]
         [("count", want.length == got.length)])) "bad-args"
+  | "c09.spec_among", [spectrum, got, bound, tol] => some <| Option.getD (do
+      -- weaker judgement when the spectrum is degenerate at the cut: every returned value is an eigenvalue of the dense
+      -- operator and lies below the bound (both in the increasing order of the symmetric operator)
+      let spectrum ← vec? spectrum; let got ← vec? got; let bound ← fl? bound; let tol ← fl? tol
+      let scale := 1 + Spec.maxAbs spectrum.length (vget spectrum)
+      let dist := fun (x : Float) => spectrum.foldl (fun acc w => if absv (x - w) < acc then absv (x - w) else acc) (1.0 / 0.0)
+      let checks := (List.range got.length).flatMap fun c =>
+        [(s!"is-eigenvalue[{c}]", dist (vget got c), tol * scale), (s!"below-bound[{c}]", vget got c - bound, tol * scale)]
+      some (verdict checks [])) "bad-args"
   | "c09.spec_orthonormal", [n, k, m, tol] => some <| Option.getD (do
       let n ← n.toNat?; let k ← k.toNat?; let m ← mat? m; let tol ← fl? tol
       some (verdict [("orthonormal", Spec.gramDefect n k (fun _ => 1) m, tol * 10)]
@@ -235,6 +244,7 @@ def handle : Handler
                                ("embedding_col", Spec.maxDiff ncol k colWant (mget ec), tol)])
         [("shape", er.length == nr && ec.length == ncol && er.all (·.length == k) && ec.all (·.length == k))])) "bad-args"
   -- ---------------------------------------------------------------- solver wrappers
+  | "c09.svdwhich", [] => some s!"ok which={lanczosSvdWhich}"
   | "c09.svdpost", [nr, ncol, u, s, vt] => some <| Option.getD (do
       let nr ← nr.toNat?; let ncol ← ncol.toNat?; let u ← mat? u; let s ← vec? s; let vt ← mat? vt
       let (sv, l, r) := lanczosSvdPost nr ncol u s vt
